@@ -42,6 +42,8 @@ type c18Req struct {
 	Accepted bool   `json:"accepted"`
 	MIT      string `json:"mit"` // verdict of MIT's acceptor on the same token: "accepted" (complete, right client, intended service), "refused", "" (not asked)
 	BodyOK   bool   `json:"bodyOK"`
+	BLen     int    `json:"blen"` // the body that arrived: length and the first octets of its SHA-256
+	BSum     string `json:"bsum"`
 	Method   string `json:"method"`
 }
 
@@ -59,6 +61,7 @@ type scriptedServers struct {
 	a, b     *httptest.Server
 	cname    string
 	crealm   string
+	redir    int // status of the redirects: 307 (method and body are kept) or 302 (net/http turns a POST into a GET)
 }
 
 const c18Cap = 60
@@ -75,7 +78,9 @@ func (s *scriptedServers) handler(self, other func() string, acceptor *spnego.SP
 		}
 		s.pos++
 		rec := c18Req{Sym: sym, Method: r.Method}
-		rec.BodyOK = len(body) == s.bodyLen && sha256.Sum256(body) == s.bodySum
+		sum := sha256.Sum256(body)
+		rec.BodyOK = len(body) == s.bodyLen && sum == s.bodySum
+		rec.BLen, rec.BSum = len(body), hx(sum[:8])
 		if h := r.Header.Get("Authorization"); strings.HasPrefix(h, "Negotiate ") {
 			rec.Auth = true
 			if tb, err := base64.StdEncoding.DecodeString(strings.TrimPrefix(h, "Negotiate ")); err == nil {
@@ -121,10 +126,10 @@ func (s *scriptedServers) handler(self, other func() string, acceptor *spnego.SP
 			w.WriteHeader(401)
 		case "rs":
 			w.Header().Set("Location", self()+fmt.Sprintf("/again/%d", s.pos))
-			w.WriteHeader(307)
+			w.WriteHeader(s.redir)
 		case "ro":
 			w.Header().Set("Location", other()+fmt.Sprintf("/elsewhere/%d", s.pos))
-			w.WriteHeader(307)
+			w.WriteHeader(s.redir)
 		case "err":
 			w.WriteHeader(500)
 		}
@@ -231,7 +236,11 @@ func cmdC18(args []string) error {
 				blen = []int{0, 0, 1, 4096, 0, 70000}[(si/4)%6]
 			}
 			spnMode := []string{"explicit", "url"}[(si/2)%2]
-			if err := runC18(tw, cl, kt, realm, sc, method, blen, spnMode, et, r); err != nil {
+			// every third scenario redirects with 302 instead of 307; every fifth body is a stream of unknown length (sent chunked,
+			// no GetBody: net/http cannot rewind it, only the client's own copy can)
+			redir := []int{307, 302, 307}[(si/5)%3]
+			stream := blen > 0 && (si/7)%5 == 2
+			if err := runC18(tw, cl, kt, realm, sc, method, blen, spnMode, et, r, redir, stream); err != nil {
 				return err
 			}
 		}
@@ -241,9 +250,9 @@ func cmdC18(args []string) error {
 	return nil
 }
 
-func runC18(tw *traceWriter, cl *client.Client, kt *keytab.Keytab, realm string, sc c18Script, method string, blen int, spnMode string, et int32, r *rand.Rand) error {
+func runC18(tw *traceWriter, cl *client.Client, kt *keytab.Keytab, realm string, sc c18Script, method string, blen int, spnMode string, et int32, r *rand.Rand, redir int, stream bool) error {
 	body := rbytes(r, blen)
-	s := &scriptedServers{script: sc.Script, tail: sc.Tail, bodyLen: blen, bodySum: sha256.Sum256(body), cname: "alice", crealm: realm}
+	s := &scriptedServers{script: sc.Script, tail: sc.Tail, bodyLen: blen, bodySum: sha256.Sum256(body), cname: "alice", crealm: realm, redir: redir}
 	// the two hosts are different hosts with different service principals and keys (127.0.0.1 / 127.0.0.2): with a URL-derived SPN
 	// the intended principal is that of the host the request goes to, and each host's acceptor holds only its own key; an
 	// explicit SPN is the intended principal wherever the request goes
@@ -272,6 +281,9 @@ func runC18(tw *traceWriter, cl *client.Client, kt *keytab.Keytab, realm string,
 	var rd io.Reader
 	if method == "POST" || blen > 0 {
 		rd = bytes.NewReader(body)
+		if stream {
+			rd = struct{ io.Reader }{rd} // hides the length and the ability to rewind
+		}
 	}
 	req, err := http.NewRequest(method, s.a.URL+"/start", rd)
 	if err != nil {
@@ -290,7 +302,7 @@ func runC18(tw *traceWriter, cl *client.Client, kt *keytab.Keytab, realm string,
 			result = "ok"
 		case resp.StatusCode == 500:
 			result = "err"
-		case resp.StatusCode == 307:
+		case resp.StatusCode == 307 || resp.StatusCode == 302:
 			result = "redirect"
 		case resp.StatusCode == 401 && resp.Header.Get("WWW-Authenticate") == "Negotiate":
 			result = "bare"
@@ -313,7 +325,7 @@ func runC18(tw *traceWriter, cl *client.Client, kt *keytab.Keytab, realm string,
 	if reqs == nil {
 		reqs = []c18Req{}
 	}
-	tw.emit(map[string]interface{}{"script": sc.Script, "tail": sc.Tail, "method": method, "bodyLen": blen, "spnMode": spnMode, "et": et,
+	tw.emit(map[string]interface{}{"script": sc.Script, "tail": sc.Tail, "method": method, "bodyLen": blen, "spnMode": spnMode, "et": et, "redir": redir, "stream": stream,
 		"reqs": reqs, "capped": capped, "result": result, "panic": p, "errtext": et2})
 	return nil
 }
